@@ -109,15 +109,15 @@ CLAIMS = {
             "Modelled, not verified: Linux semantics of rename/chown/chmod/O_EXCL as abstracted in Fs.v; the multi-link in-place rewrite has a theorem for fault-free runs (same inode, new content, mode/owner/links kept, mtime restored); under faults and 'each inode once' it is checked by correspondence and oracle.",
             "DESIGN.md section 5-C09"),
     "C10": ("Coq theorem: in check mode, for every handler result (errors and panics included), shape, profile and any single failing operation, the file system after the run and at every "
-            "intermediate point IS the initial one and only non-mutating operations are issued; and for one file, absent failures, check mode reports exactly the result a real run reports. Tied to the code by strace'd --check runs (no mutating syscall; snapshot incl. directory "
+            "intermediate point IS the initial one and only non-mutating operations are issued - for one run and for a whole walk over any entries; and for one file, absent failures, check mode reports exactly the result a real run reports. Tied to the code by strace'd --check runs (no mutating syscall; snapshot incl. directory "
             "mtimes unchanged; class/trace = model) and by comparing counts and verdict with a real run on an identical tree, serially and with -j2.",
             "Modelled, not verified: the agreement theorem is per file and fault-free (C10_predicts_real); agreement of the summed counts over a tree, and under -jN, is established by the runs.",
             "DESIGN.md section 5-C10"),
     "C12": ("Coq theorem quantifying over every intermediate file-system state of a run (one per issued operation, i.e. every kill point), every handler, handler result, shape, profile and "
             "single fault: each state is pre-commit (file entirely original: same inode, content, metadata; every other name but the hidden temp one bound as before) or the one committed "
-            "state produced by rename(tmp,file), which is entirely final. Tied to the code by killing real runs at every traced syscall (strace SIGKILL injection), judging the snapshot, "
+            "state produced by rename(tmp,file), which is entirely final; and from any pre-commit state a rerun that meets no failure reports Replaced and reaches exactly the final state, whatever temporary file was left. Tied to the code by killing real runs at every traced syscall (strace SIGKILL injection), judging the snapshot, "
             "matching it against the model's state set, and re-running to convergence.",
-            "Modelled, not verified: kill = stop between two system calls, no power loss; convergence of the rerun is established by the runs, not by a theorem.",
+            "Modelled, not verified: kill = stop between two system calls, no power loss; the convergence theorem covers a rerun that meets no failure on a single-link file whose handler wants a change (the other cases leave the file as it was by C14/C07).",
             "DESIGN.md section 5-C12"),
     "C19": ("The C12/C09 Coq theorems hold with any single operation failing (fault = (k, errno) is universally quantified): all states stay old-or-final and a reported replacement is complete; "
             "the temporary name is unbound at the end unless a removal is among the failed calls; a run whose result is not Error met no failed call other than the tolerated ones (removal of the "
